@@ -120,13 +120,13 @@ func hSamePathElements(a, b string) bool {
 }
 
 var h18cTemplates = []string{
-	"a:%" + hHex + hHex,                                          // 1 every escaped byte as a path segment
-	"a:b%2F" + hAny,                                              // 2
-	"a%3A" + hDig + ":" + hAny,                                   // 3
-	hDig + "." + hDig + "." + hDig + "." + hDig + "%3A" + hDig,   // 4 IPv4 with port
-	"%5B%3A%3A" + hDig + "%5D%3A" + hDig,                         // 5 IPv6 with port
-	hAny + "%40" + hAny,                                          // 6 user-info
-	"a:" + hAny + hAny,                                           // 7
+	// escaped bytes in a path segment, spelled out (a symbolic escape is ~50x slower per query)
+	"a:%2F", "a:b%2Fc", "a:%2E%2E", "a:b:%2e", "a:%41", "a:%20", "a:%3F", "a:%23", "a:%25", "a:%C3%A9", "a:%2B", // 1-11
+	"a%3A" + hDig + ":" + hAny,                                 // 12
+	hDig + "." + hDig + "." + hDig + "." + hDig + "%3A" + hDig, // 13 IPv4 with port
+	"%5B%3A%3A" + hDig + "%5D%3A" + hDig,                       // 14 IPv6 with port
+	hAny + "%40" + hAny,                                        // 15 user-info
+	"a:" + hAny + hAny,                                         // 16
 }
 
 // H18c1: which request does Resolve send? For every id (bytes up to n, and templates): no request at all when
